@@ -314,7 +314,7 @@ func c06LoadedEval(f []string) (string, []string) {
 	tags := []string{fmt.Sprintf("sites=%d", len(sites))}
 	spelled := false
 	for i, s := range sites {
-		if c01AddrHost(s.key) != s.addrHost || strings.Contains(s.key, "://") || strings.HasSuffix(strings.SplitN(s.key, "/", 2)[0], ":https") {
+		if c01AddrHost(s.key) != s.addrHost || s.key != strings.ToLower(s.key) || strings.Contains(s.key, "://") || strings.HasSuffix(strings.SplitN(s.key, "/", 2)[0], ":https") {
 			spelled = true
 		}
 		if s.key != strings.ToLower(s.key) {
@@ -342,8 +342,13 @@ func c06LoadedEval(f []string) (string, []string) {
 		return "err:load\t||\tnotfound\t0", append(tags, "trivial-load-error")
 	}
 	scs := httpserver.VerifC15Configs(ctx)
-	if len(scs) != len(sites) {
+	if len(scs) < len(sites) {
 		return fmt.Sprintf("config-count:%d", len(scs)), tags
+	}
+	if len(scs) > len(sites) {
+		// a directive made configs of its own (GetConfig did not find the site's): they join the listener as casket
+		// would start it, but only the first len(sites) configs are the declared sites
+		tags = append(tags, "extra-configs")
 	}
 	var ran []int
 	for i, sc := range scs {
@@ -389,7 +394,7 @@ func c06LoadedEval(f []string) (string, []string) {
 			cur := -1
 			if got != nil {
 				cur = -2
-				for i, sc := range scs {
+				for i, sc := range scs[:len(sites)] {
 					if caskettls.VerifTLSConfig(sc.TLS) == got {
 						cur = i
 					}
@@ -435,7 +440,7 @@ func c06LoadedEval(f []string) (string, []string) {
 	switch {
 	case len(ran) == 1 && rec.Code == 200:
 		served = "site\t" + strconv.Itoa(ran[0])
-		if cfgs[ran[0]].clientAuth != 0 {
+		if ran[0] < len(cfgs) && cfgs[ran[0]].clientAuth != 0 {
 			tags = append(tags, "served-by-clientauth-site")
 		}
 	case len(ran) == 0 && rec.Code == 403:
